@@ -648,9 +648,16 @@ class _Wat:
         if m.table is not None:
             lim = " ".join(str(x) for x in m.table if x is not None)
             L.append("  (table%s %s funcref)" % (exports_inline("table", 0) if inline else "", lim))
+        self.mem_abbrev = False
         if m.mem is not None:
             lim = " ".join(str(x) for x in m.mem if x is not None)
-            L.append("  (memory%s %s)" % (exports_inline("memory", 0) if inline else "", lim))
+            if (inline and len(m.datas) == 1 and m.datas[0][0] == 0 and m.mem[0] == m.mem[1] == (len(m.datas[0][1]) + 65535) // 65536
+                    and not any(i.kind == "memory" for i in m.imports)):
+                # `(memory (data "..."))`: the abbreviation for a memory of exactly ceil(n / 64 Ki) pages with one active segment at offset 0
+                self.mem_abbrev = True
+                L.append("  (memory%s (data %s))" % (exports_inline("memory", 0), data_text(m.datas[0][1])))
+            else:
+                L.append("  (memory%s %s)" % (exports_inline("memory", 0) if inline else "", lim))
         for i, g in enumerate(m.globs):
             gi = ng + i
             gt = "(mut %s)" % g.vt if g.mut else g.vt
@@ -693,7 +700,7 @@ class _Wat:
             L.append(head)
             self.body(f.body, 2)
             L.append("  )")
-        for off, d in m.datas:
+        for off, d in ([] if self.mem_abbrev else m.datas):
             if self.style == "folded":
                 L.append("  (data (offset (i32.const %d)) %s)" % (off, data_text(d)))
             else:
@@ -1313,8 +1320,8 @@ def skeleton_args(ncond, uses_index, rich=False):
 STRUCT_OPTIONS = {
     "imports": [(), ("func",), ("gi",), ("gm",), ("mem",), ("tab",), ("func", "func2"), ("func", "gi"), ("func", "mem"), ("func", "tab"),
                 ("gi", "gm"), ("gi", "mem"), ("mem", "tab"), ("gf",)],
-    "mem": ["none", "1", "1-2", "0", "0-0", "2-65536"],
-    "data": ["none", "one", "two", "esc"],
+    "mem": ["none", "1", "1-2", "0", "0-0", "2-65536", "1-1", "2-2"],
+    "data": ["none", "one", "two", "esc", "page", "two-pages", "empty"],
     "table": ["none", "2", "2-2@1", "0", "3-8@0+2"],
     "globals": ["none", "i32", "i32m", "i64", "i64m", "f32", "f32m", "f64", "f64m", "two", "fromimport"],
     "start": ["none", "start"],
@@ -1348,16 +1355,29 @@ def structure_module(cfg):
     has_itab = "tab" in cfg["imports"]
     n_ig = sum(1 for i in imports if i.kind == "global")
     n_if = sum(1 for i in imports if i.kind == "func")
-    mem = {"none": None, "1": (1, None), "1-2": (1, 2), "0": (0, None), "0-0": (0, 0), "2-65536": (2, 65536)}[cfg["mem"]]
+    mem = {"none": None, "1": (1, None), "1-2": (1, 2), "0": (0, None), "0-0": (0, 0), "2-65536": (2, 65536), "1-1": (1, 1), "2-2": (2, 2)}[cfg["mem"]]
     if has_imem:
         if cfg["mem"] != "none":
             return None
     have_mem = has_imem or (mem is not None and mem[0] >= 1)
     datas = []
-    if cfg["data"] != "none":
+    if cfg["data"] == "empty":
+        # a zero-length segment at offset 0 is valid for any defined or imported memory, also one of 0 pages
+        if mem is None and not has_imem:
+            return None
+        datas = [(0, b"")]
+    elif cfg["data"] != "none":
         if not have_mem:
             return None
-        if cfg["data"] == "one":
+        if cfg["data"] in ("page", "two-pages"):
+            # exactly one / two pages of data at offset 0 (the boundary of the `(memory (data ...))` abbreviation's page count)
+            n = 65536 if cfg["data"] == "page" else 131072
+            if not has_imem and mem[0] * 65536 < n:
+                return None
+            if has_imem and n > 65536:
+                return None
+            datas = [(0, bytes((7 * i + 3) % 251 % 95 + 32 for i in range(n)))]
+        elif cfg["data"] == "one":
             datas = [(0, b"abc")]
         elif cfg["data"] == "two":
             datas = [(8, b"\x01\x02"), (65530, b"zzzzzz")]
